@@ -67,8 +67,12 @@ fn hex_digit(n: u32) -> u8 {
 /// value the harness recorded in `ESC_VALUE`: backslash, `u`, four lowercase hex digits.
 pub(crate) fn stub_fmt_write_u_escape(output: &mut dyn core::fmt::Write, _args: core::fmt::Arguments<'_>) -> core::fmt::Result {
     let v = ESC_VALUE.load(core::sync::atomic::Ordering::Relaxed);
-    let bytes = [b'\\', b'u', hex_digit(v >> 12), hex_digit(v >> 8), hex_digit(v >> 4), hex_digit(v)];
-    output.write_str(core::str::from_utf8(&bytes).unwrap())
+    // written character by character: `str::from_utf8` on symbolic bytes would cost a validation loop per path
+    output.write_str("\\u")?;
+    output.write_char(hex_digit(v >> 12) as char)?;
+    output.write_char(hex_digit(v >> 8) as char)?;
+    output.write_char(hex_digit(v >> 4) as char)?;
+    output.write_char(hex_digit(v) as char)
 }
 
 /// Stub for `core::fmt::write` where the formatted text is not the subject: nothing is appended.
